@@ -47,6 +47,11 @@
 (*                   CANCELLED context (RemoveWaitingTunnel(s.Ctx(), id)).  As-is the removal does  *)
 (*                   not look at the context.  HonourContext = TRUE models the design that skips    *)
 (*                   storage calls on a finished context: the records stay - deviation "notRemoved".*)
+(*                   At the call sites (Mode "split") a shutdown is ShutdownSplit(n): every bridge on n  *)
+(*                   ends at once (cause: the node's context), each lifecycle's RecordRemoved is a step   *)
+(*                   of its own and runs on the finished context; a record whose Set is still in flight   *)
+(*                   lands first (as-is the lifecycle goroutine is started after it, also on a finished   *)
+(*                   context).  With HonourContext the late Set is skipped as well (nothing to remove).   *)
 (*   Arrive(m,t)     (Mode "arrive") the target's TunnelOpen arrives at node m and goes through the  *)
 (*                   session layer: handleTunnelOpen -> LookupWaitingTunnel ->                      *)
 (*                   handleCrossNodeTargetConnection -> lookupTunnelRouting -> forwardToSourceNode   *)
@@ -225,19 +230,22 @@ TargetGone(m, t) ==
 \* ---- the same at the real call sites, step by step ------------------------------------------
 BridgeCreated(n, t) ==
   /\ Mode = "split"
-  /\ addr[n] /\ Free(t) /\ nreg[t] < MaxReg
+  /\ up[n] /\ addr[n] /\ Free(t) /\ nreg[t] < MaxReg
   /\ nreg' = [nreg EXCEPT ![t] = @ + 1]
   /\ bridge' = [bridge EXCEPT ![t] = [on |-> TRUE, node |-> n, ver |-> nreg[t] + 1, left |-> TTL]]
   /\ flight' = [flight EXCEPT ![t] = [p |-> TRUE, node |-> n, ver |-> nreg[t] + 1, left |-> TTL]]
   /\ UNCHANGED <<rec, addr, rmpend, dev, clock, EV>>
   /\ Log("Create", n, t)
 
+\* the routing-table call is made on the node's context; the design HonourContext returns early when it has ended
+CtxSkips(n) == HonourContext /\ ~up[n]
 RecordSet(n, t) ==
   /\ flight[t].p /\ flight[t].node = n
-  /\ rec' = [rec EXCEPT ![t] = IF flight[t].left > 0 THEN [node |-> n, ver |-> flight[t].ver, ttl |-> flight[t].left] ELSE NoRec]
+  /\ rec' = IF CtxSkips(n) THEN rec
+            ELSE [rec EXCEPT ![t] = IF flight[t].left > 0 THEN [node |-> n, ver |-> flight[t].ver, ttl |-> flight[t].left] ELSE NoRec]
   /\ flight' = [flight EXCEPT ![t] = NoFlight]
-  /\ dev' = [dev EXCEPT ![t] = IF flight[t].left > 0 /\ ~bridge[t].on /\ rmpend[t] = "-" THEN {"lateSet"} ELSE {}]   \* ended AND already cleaned up
-  /\ stale' = [stale EXCEPT ![t] = FALSE]
+  /\ dev' = [dev EXCEPT ![t] = IF ~CtxSkips(n) /\ flight[t].left > 0 /\ ~bridge[t].on /\ rmpend[t] = "-" THEN {"lateSet"} ELSE {}]   \* ended AND already cleaned up
+  /\ stale' = IF CtxSkips(n) THEN stale ELSE [stale EXCEPT ![t] = FALSE]
   /\ UNCHANGED <<bridge, pe, lkWrote, up, held, seen>>
   /\ UNCHANGED <<addr, rmpend, nreg, clock>>
   /\ Log("Set", n, t)
@@ -250,13 +258,24 @@ TunnelEnds(n, t) ==
   /\ UNCHANGED <<rec, addr, flight, dev, nreg, clock, EV>>
   /\ Log("End", n, t)
 
+\* the node's SessionManager is closed while bridges exist on it: all of them end, their lifecycles
+\* (started or, for a record still in flight, yet to be started) remove the records step by step
+ShutdownSplit(n) ==
+  /\ Mode = "split" /\ up[n] /\ \E t \in Tunnels : bridge[t].on /\ bridge[t].node = n
+  /\ up' = [up EXCEPT ![n] = FALSE]
+  /\ LET mine == {t \in Tunnels : bridge[t].on /\ bridge[t].node = n} IN
+     /\ bridge' = [t \in Tunnels |-> IF t \in mine THEN NoBridge ELSE bridge[t]]
+     /\ rmpend' = [t \in Tunnels |-> IF t \in mine THEN n ELSE rmpend[t]]
+  /\ UNCHANGED <<rec, addr, flight, dev, nreg, clock, stale, pe, lkWrote, held, seen>>
+  /\ Log("Shutdown", n, "-")
+
 RecordRemoved(n, t) ==
   /\ rmpend[t] = n
   /\ LifecycleFirst \/ ~flight[t].p        \* as-is the lifecycle goroutine is started after the Set returned
-  /\ rec' = [rec EXCEPT ![t] = NoRec]
+  /\ rec' = IF CtxSkips(n) THEN rec ELSE [rec EXCEPT ![t] = NoRec]
   /\ rmpend' = [rmpend EXCEPT ![t] = "-"]
-  /\ dev' = [dev EXCEPT ![t] = {}]
-  /\ stale' = [stale EXCEPT ![t] = FALSE]
+  /\ dev' = [dev EXCEPT ![t] = IF CtxSkips(n) /\ rec[t].ttl > 0 THEN {"notRemoved"} ELSE {}]
+  /\ stale' = IF CtxSkips(n) THEN stale ELSE [stale EXCEPT ![t] = FALSE]
   /\ UNCHANGED <<addr, bridge, flight, nreg, clock, pe, lkWrote, up, held, seen>>
   /\ Log("Removed", n, t)
 
@@ -288,7 +307,7 @@ Tick ==
   /\ Log("Tick", "-", "-")
 
 Next == \/ Tick
-        \/ \E n \in Nodes : Announce(n) \/ Shutdown(n)
+        \/ \E n \in Nodes : Announce(n) \/ Shutdown(n) \/ ShutdownSplit(n)
         \/ \E n \in Nodes, t \in Tunnels :
              \/ \E loc \in Locs : Register(n, t, loc)
              \/ Lookup(n, t) \/ LateLookup(n, t) \/ Remove(n, t) \/ EvictScan(n, t) \/ EvictWrite(t)
